@@ -142,32 +142,54 @@ def run(rep, repo, tier):
     if not helper_calls:
         rep.fail('C16.R1', parse_where, 'the ordering helper is called from parse()', got='no call', construct='helper not called')
     hpos = order[id(helper_calls[0][0])] if helper_calls else 10 ** 9
+    # semantic table: with only this criterion present at position v, is a parser.error reached before the scatter?
+    from ..termeval import PyEval, NOATOM, Raises
+    bool_dests = {d for d, a in pf.by_dest.items() if a.action == 'store_true'}
+    early = [(e, ctx, order[id(e)]) for e, ctx in pf.errors if order[id(e)] < hpos]
     for dest, m in rows:
-        arg = A(S('args'), dest)
-        pos = simp(I(arg, C(0))) if (pf.by_dest.get(dest) and pf.by_dest[dest].nargs is not None) else arg
-        found = None
-        for e, ctx in pf.errors:
-            gs = [ks(g) for g in pf.guards_of(ctx)]
-            gs = [g for g in gs if g != TRUE]
-            flat = []
-            for g in gs:
-                flat += list(g[2]) if (g[0] == 'bool' and g[1] == 'and') else [g]
-            iv = [int_interval_violation(g, pos) for g in flat]
-            if any(iv):
-                found = (e, flat, [x for x in iv if x][0], order[id(e)])
-                break
-        if not found:
-            rep.fail('C16.R2', parse_where, 'position of %s is range-checked' % m, got='no parser.error guarded by a range test on ' + show(pos),
-                     want='%s < 1 or %s > %d -> parser.error' % (show(pos), show(pos), N), construct='range guard of %s absent' % dest)
+        is_list = bool(pf.by_dest.get(dest) and pf.by_dest[dest].nargs is not None)
+        verdicts = {}
+        problem = None
+        for v in (0, 1, N, N + 1):
+            for extra in ([()] if not is_list else [(), (3,)]):
+                val = ([v] + list(extra)) if is_list else v
+                def atom(t, val=val):
+                    if t[0] == 'attr' and t[1] == S('args'):
+                        if t[2] == dest:
+                            return val
+                        if t[2] in bool_dests:
+                            return False
+                        return None
+                    return NOATOM
+                hit = None
+                for e, ctx, pos_ in early:
+                    pe = PyEval(atom)
+                    try:
+                        ok = all(pe.truth(pe.ev(g)) for g in pf.guards_of(ctx))
+                    except Raises as r:
+                        problem = ('raises', str(r), e)
+                        ok = False
+                    except Unknown as u:
+                        problem = ('unknown', str(u), e)
+                        ok = False
+                    if ok:
+                        hit = e
+                        break
+                verdicts[(v, extra)] = hit
+        if problem and problem[0] == 'unknown':
+            rep.inconclusive('C16.R2', parse_where, 'the guards of the parser.error calls before the scatter can be evaluated for %s' % m, got=problem[1], loc=problem[2].loc)
             continue
-        e, flat, (lo, hi), epos = found
-        rep.check((lo, hi) == (1, N), 'C16.R2', e.where, 'accepted positions of %s are exactly 1..%d' % (m, N), got='%d..%d' % (lo, hi), want='1..%d' % N,
-                  construct='range of %s: %d..%d' % (dest, lo, hi), loc=e.loc)
-        others = [g for g in flat if not int_interval_violation(g, pos) and g != NOT(CMP('Eq', arg, NONE)) and g != CMP('NotEq', arg, NONE)
-                  and g != NOT(CMP('Is', arg, NONE)) and g != CMP('IsNot', arg, NONE)]
-        rep.check(not others, 'C16.R2', e.where, 'the range check of %s is evaluated whenever the flag is present' % m, got=[show(g) for g in others],
-                  want='only the not-None guard', construct='range guard of %s conditional: %s' % (dest, ' & '.join(show(g) for g in others)), loc=e.loc)
-        rep.check(epos < hpos, 'C16.R2', e.where, 'the range check of %s precedes the scatter' % m, got='after the ordering helper', construct='range guard of %s late' % dest, loc=e.loc)
+        bad_accept = [k for k, h in verdicts.items() if k[0] in (0, N + 1) and h is None]
+        bad_reject = [k for k, h in verdicts.items() if k[0] in (1, N) and h is not None]
+        if bad_accept:
+            rep.fail('C16.R2', parse_where, 'position of %s is range-checked before the scatter' % m, got='position %d is not refused before the ordering helper runs' % bad_accept[0][0],
+                     want='%s < 1 or %s > %d -> parser.error' % (dest, dest, N), construct='range guard of %s absent' % dest)
+        elif bad_reject:
+            e = verdicts[bad_reject[0]]
+            rep.fail('C16.R2', e.where, 'accepted positions of %s are exactly 1..%d' % (m, N), got='position %d is refused' % bad_reject[0][0], want='1..%d accepted' % N,
+                     construct='range of %s refuses %d' % (dest, bad_reject[0][0]), loc=e.loc)
+        else:
+            rep.ok('C16.R2', parse_where, 'positions 0 and %d of %s are refused before the scatter, 1 and %d are not (with and without extras)' % (N + 1, m, N), got='table of %d valuations' % len(verdicts))
 
     # ---- R3 duplicate guard ------------------------------------------------------------------------------
     if helper_calls:
@@ -299,18 +321,33 @@ def check_helper(rep, repo, helper, N, r1='C16.R1', r3='C16.R3', r6='C16.R6'):
             sv = sentinel_of(g, b)
             if sv is not None and comp[2] == b:
                 X, sent = dom, sv
+    dict_mode = False
+    if X is None and comp[0] == 'comp' and len(comp[1]) == 1 and comp[1][0][1] == TRUE:
+        # alternative schema: a dict keyed by position, read back in sorted key order
+        b, g = comp[1][0]
+        dom = b[3]
+        if dom[0] == 'call' and dom[1] == S('sorted') and len(dom[2]) == 1 and not dom[3]:
+            D = dom[2][0]
+            if D[0] == 'call' and D[1][0] == 'attr' and D[1][2] == 'keys' and not D[2]:
+                D = D[1][1]
+            if D[0] == 'accum' and D[1] == ('dict', ()) and comp[2] == I(D, b):
+                X, sent, dict_mode = D, NONE, True
     if X is None:
         rep.fail(r1, where, 'compaction visits the slots in ascending index order and keeps the non-sentinel ones',
                  got=show(kept)[:240], want='[slot for slot in slots if slot is not the sentinel]', construct='compaction form')
         return
-    rep.ok(r1, where, 'compaction visits slots ascending and keeps non-sentinel ones', got='sentinel %s' % show(sent))
+    if dict_mode:
+        rep.ok(r1, where, 'criteria are stored in a dict keyed by position and read back in sorted key order', got='sorted(dict)')
+    else:
+        rep.ok(r1, where, 'compaction visits slots ascending and keeps non-sentinel ones', got='sentinel %s' % show(sent))
     if X[0] != 'accum':
         rep.fail(r1, where, 'slots are filled by a scatter over the criteria', got=show(X)[:200], construct='scatter form')
         return
     pre, entries = X[1], X[2]
-    want_pre = [BIN('Mult', CALL(S('len'), [S('opts')]), ('list', (sent,))), BIN('Mult', ('list', (sent,)), CALL(S('len'), [S('opts')]))]
-    rep.check(pre in want_pre, r1, where, 'one sentinel slot per criterion', got=show(pre), want='len(opts) * [%s]' % show(sent), construct='slot array size')
-    rep.check(sent in (C(0), NONE), r1, where, 'the sentinel cannot be confused with a stored (criterion, extras) tuple', got=show(sent), construct='sentinel value')
+    if not dict_mode:
+        want_pre = [BIN('Mult', CALL(S('len'), [S('opts')]), ('list', (sent,))), BIN('Mult', ('list', (sent,)), CALL(S('len'), [S('opts')]))]
+        rep.check(pre in want_pre, r1, where, 'one sentinel slot per criterion', got=show(pre), want='len(opts) * [%s]' % show(sent), construct='slot array size')
+        rep.check(sent in (C(0), NONE), r1, where, 'the sentinel cannot be confused with a stored (criterion, extras) tuple', got=show(sent), construct='sentinel value')
     # ---- scatter entries, case split on the kind of the flag value ----
     cases = {'list': [], 'scalar': []}
     for op, idx, val, ch in entries:
@@ -334,7 +371,14 @@ def check_helper(rep, repo, helper, N, r1='C16.R1', r3='C16.R3', r6='C16.R6'):
         op, idx, val, g2, b = es[0]
         args_, opt = I(b, C(0)), I(b, C(1))
         pos = simp(I(args_, C(0))) if case == 'list' else args_
-        rep.check(op == 'setidx' and idx == BIN('Sub', pos, C(1)), r1, where,
+        # range(n)[k] is k for the (range-checked) positions
+        def unrange(t):
+            if t[0] == 'idx' and t[1][0] == 'call' and t[1][1] == S('range') and len(t[1][2]) == 1:
+                return t[2]
+            return None
+        idx = simp(subst(idx, unrange))
+        okidx = idx == BIN('Sub', pos, C(1)) or (dict_mode and idx == pos)
+        rep.check(op == 'setidx' and okidx, r1, where,
                   'a %s criterion is stored at slot position - 1' % ('list-valued' if case == 'list' else 'scalar'), got='%s[%s]' % (op, show(idx).replace(show(b), 'it')),
                   want='setidx[%s - 1]' % show(pos).replace(show(b), 'it'), construct='scatter index %s (%s)' % (show(idx).replace(show(b), 'it'), case))
         rep.check(g2 in present_forms(b), r1, where, 'the scatter covers exactly the present criteria', got=show(g2).replace(show(b), 'it'), want='arguments is not None',
